@@ -37,6 +37,8 @@ struct PoolWorld {
     int running = 0;
     int max_running = 0;
     bool free_entered = false, free_returned = false;
+    uint64_t shutdown_lock_gseq = 0;             // the freeing thread's first acquisition of the pool lock inside m_thpool_free: shutdown is set under it
+    std::map<int, uint64_t> last_lock;           // per thread: its latest acquisition of a pool mutex
     uint64_t free_return_gseq = 0;
     std::vector<uint64_t> clear_ok_returns;    // gseq at which a successful clear returned
     int clears_invoked = 0;
@@ -57,6 +59,15 @@ void *task_body(void *arg) {
     if (++t->started > 1) VIOL("C06", "C06:task-ran-twice", "task %d (submitter %d) was started a second time", t->id, t->submitter);
     if (t->add_rc != -9999 && t->add_rc != 0) VIOL("C06", "C06:refused-task-ran", "task %d runs although m_thpool_add returned %d for it", t->id, t->add_rc);
     if (PW->free_returned) VIOL("C06", "C06:task-started-after-free", "task %d was started after m_thpool_free returned", t->id);
+    // free without wait-all: a task not started when the shutdown was requested is discarded. The request is made under the pool lock; a
+    // worker that took the lock after that (woke up from its wait, or came back for the next task) has seen it and must not start anything.
+    // (A worker that dequeued before the request and starts the task only now has not held the lock since: legitimate.)
+    if (PW->free_entered && !PW->wait_all && PW->shutdown_lock_gseq) {
+        oracle_eval("C06.discarded-never-run");
+        auto it = PW->last_lock.find(sim::self_id());
+        if (it != PW->last_lock.end() && it->second > PW->shutdown_lock_gseq)
+            VIOL("C06", "C06:discarded-task-ran", "task %d was started by a worker that acquired the pool lock after m_thpool_free(no wait-all) had requested the shutdown under it", t->id);
+    }
     t->start_gseq = ++R->gseq;
     t->worker = sim::self_id();
     PW->starts++;
@@ -212,6 +223,12 @@ RunResult run_pool(const Program &p, bool trace) {
     m_set_memhook(sk_malloc, sk_calloc, sk_free);
     PoolWorld w;
     PW = &w;
+    R->on_mutex_acquired = [](int tid, const void *) {
+        if (!PW) return;
+        uint64_t g = ++R->gseq;
+        PW->last_lock[tid] = g;
+        if (tid == 0 && PW->free_entered && !PW->shutdown_lock_gseq) PW->shutdown_lock_gseq = g;
+    };
     w.nthreads = (int)std::min(8L, std::max(1L, p.get("threads", 2)));
     w.flags = (p.get("lazy", 0) ? M_THPOOL_LAZY : 0) | (p.get("detached", 0) ? M_THPOOL_DETACHED : 0);
     w.wait_all = p.get("wait_all", 1) != 0;
